@@ -345,6 +345,8 @@ func checkC08(c *Ctx) {
 	c8UseAfterRelease(c, "R8.3", releaseFns)
 	c8SingleRelease(c)
 	c8Ownership(c)
+	c.Rule("R8.7", "no value built from a parent shares a slice tail with it (what a derived handler or an emitted entry holds cannot be overwritten by deriving or logging again)", 1)
+	c7AppendsAll(c, "R8.7")
 	c.Rule("R8.6", "encoding an entry never modifies the logger's shared encoder (what an entry looks like cannot depend on the entries logged before it)", 3)
 	c9EncoderPurity(c, "R8.6")
 }
@@ -447,6 +449,22 @@ func c8UseAfterRelease(c *Ctx, rule string, releaseFns map[string]bool) {
 						}
 					}
 				})
+				// a reference-typed field of the released object (its slice, map or pointer) handed out as the result
+				for _, r := range Returns(fn) {
+					for _, rv := range RetVals(r) {
+						v := Strip(rv)
+						if sl, ok := v.(*ssa.Slice); ok {
+							v = Strip(sl.X)
+						}
+						ld, ok := v.(*ssa.UnOp)
+						if !ok || ld.Op != token.MUL || !isRefType(ld.Type()) {
+							continue
+						}
+						if fa, ok := ld.X.(*ssa.FieldAddr); ok && Strip(fa.X) == objS {
+							esc = append(esc, "field "+fieldName(fa.X.Type(), fa.Field)+" is returned")
+						}
+					}
+				}
 				if len(esc) > 0 {
 					n++
 					c.Bad(rule, FuncKey(fn), "deferred-release/"+strings.TrimPrefix(relName(cl), "go.uber.org/zap/")+"("+Desc(obj)+")", cl.Pos(), "the object is released by a deferred call, i.e. before the caller uses the result, yet a reference into its storage %v", esc)
